@@ -130,7 +130,10 @@ func (e *verif18Sched) present() bool {
 func VerifIdleTickLeecher() {
 	e := verif18NewSched(3, false)
 	e.advance()
-	ctrl, err := e.st.addTorrent("ns", e.arch.t, true)
+	// the control is opened by a local Download, or by a remote peer's incoming
+	// connection for a partially downloaded blob (state.addIncomingConn)
+	local := verif.Choice("opened_by_local_download", 2) == 1
+	ctrl, err := e.st.addTorrent("ns", e.arch.t, local)
 	verif.Assert("add-torrent", err == nil)
 	lastReceive := e.now // creation counts as the start of the idle period
 	p, _ := dispatch.Verif18AddPeer(ctrl.dispatcher, 1, 3)
@@ -206,7 +209,8 @@ func VerifIdleTickFindingSeederServed() {
 // deletes its partial file.
 func VerifCancelDeletesPartialFile() {
 	e := verif18NewSched(2, false)
-	_, err := e.st.addTorrent("ns", e.arch.t, true)
+	local := verif.Choice("opened_by_local_download", 2) == 1
+	_, err := e.st.addTorrent("ns", e.arch.t, local)
 	verif.Assert("add-torrent", err == nil)
 	errc := make(chan error, 1)
 	removeTorrentEvent{e.arch.t.Dig, errc}.apply(e.st)
